@@ -361,6 +361,39 @@ func TestVerif_C17(t *testing.T) {
 		}
 	}
 	flush()
+	// deposits that fit the capacity one by one but not together, admitted while neither is finalized, then finalized
+	// one after the other: however the store deals with the later ones (it refuses them), the recorded total stays
+	// within the capacity
+	for _, a := range verifgen.Assets()[1:3] {
+		_, bal, _ := sim.Store.ReadAssetWithBalance(a.Id)
+		rem := new(big.Int).Sub(verifgen.UnitsOf(common.GetAssetCapacity(a.Id)), verifgen.UnitsOf(bal))
+		if rem.Cmp(big.NewInt(1000)) < 0 {
+			r.Count("capacity_already_exhausted_before_the_pending-deposits_scenario", 1)
+			continue
+		}
+		part := new(big.Int).Div(new(big.Int).Mul(rem, big.NewInt(int64(51+rng.Intn(40)))), big.NewInt(100))
+		var pending []*verifSDTx
+		for k := 0; k < 2+rng.Intn(2); k++ {
+			tx, specs := d.w.Deposit(a, part)
+			if err := sim.Admit(tx, sim.NextTime(uint64(1+rng.Intn(1e9)))); err != nil {
+				r.Count("pending-deposits_scenario_admission_refused", 1)
+				continue
+			}
+			pending = append(pending, &verifSDTx{Kind: "deposit", Tx: tx, Specs: specs})
+		}
+		r.Count("pending-deposits_scenario_deposits_admitted_together", len(pending))
+		for _, p := range pending {
+			batch = []*verifSDTx{p}
+			before := snapshots
+			flush()
+			if snapshots == before {
+				r.Count("pending-deposits_scenario_finalization_refused", 1)
+			} else {
+				r.Count("pending-deposits_scenario_finalized", 1)
+			}
+			vC17Check(r, sim, "pending-deposits-over-capacity-together")
+		}
+	}
 	vC17Check(r, sim, "end")
 	r.Note("snapshots_finalized", snapshots)
 	if snapshots < 50 {
